@@ -53,7 +53,11 @@ def vol_model(E, i, ph, T, P):
 
 
 def setup(mode):
-    sym = C.begin_setup(mode)
+    install(C.begin_setup(mode))
+
+
+def install(sym):
+    """fixture + patches without resetting earlier patches (C14 adds this package to its own)"""
     if not _fx:
         from thermosteam.base.phase_handle import PhaseTPHandle
         chems = []
